@@ -528,6 +528,22 @@ func c07Gen(r *Run, kind int) c07Input {
 		in.A, in.B = in.B, in.A
 	}
 	in.Dc, in.Ec, in.Mc = c07Coeff(r, extreme), c07Coeff(r, extreme), c07Coeff(r, extreme)
+	if r.Rng.Intn(10) == 0 {
+		// innovation numbers from both ends of the int64 range in one pair (a difference of two of them does not fit
+		// an int64): a negative first gene on one side, a gene near MaxInt64 on the other or on both
+		lowA := c07Gene{Innov: -2 - r.Rng.Int63n(1000), Mut: c07Mut(r, false)}
+		if len(in.A) == 0 || in.A[0].Innov > lowA.Innov {
+			in.A = append([]c07Gene{lowA}, in.A...)
+		}
+		high := c07Gene{Innov: math.MaxInt64 - r.Rng.Int63n(3), Mut: c07Mut(r, false)}
+		if len(in.B) == 0 || in.B[len(in.B)-1].Innov < high.Innov {
+			in.B = append(in.B, high)
+		}
+		if r.Rng.Intn(2) == 0 && (len(in.A) == 0 || in.A[len(in.A)-1].Innov < high.Innov) {
+			in.A = append(in.A, c07Gene{Innov: high.Innov, Mut: c07Mut(r, false)})
+		}
+		in.Kind += "+int64-range"
+	}
 	return in
 }
 
